@@ -97,7 +97,8 @@ Bracket OneDimensionOptimizationTools::bracketMinimum(
       parameters[0].setValue(xu); fu = function.f(parameters);
       if (fu < bracket.c.f)
       {
-        NumTools::shift<double>(bracket.b.x, bracket.c.x, xu, bracket.c.x + NumConstants::GOLDEN_RATIO_PHI() * (bracket.c.x - bracket.b.x));
+        // The next trial point is a golden step beyond the accepted one (c <- u, then u <- c + phi * (c - b)):
+        NumTools::shift<double>(bracket.b.x, bracket.c.x, xu, xu + NumConstants::GOLDEN_RATIO_PHI() * (xu - bracket.c.x));
         parameters[0].setValue(xu);
         NumTools::shift<double>(bracket.b.f, bracket.c.f, fu, function.f(parameters));
       }
